@@ -79,6 +79,12 @@ def fail(sig, **detail):
         LAST["detail"] = {k: _short(v) for k, v in detail.items()}
     except Exception:
         LAST["detail"] = {}
+    import os
+    if os.environ.get("VF_DEBUG"):
+        try:
+            sys.stderr.write("VFFAIL %s %r\n" % (sig, LAST.get("detail")))
+        except Exception:
+            pass
     return False
 
 
